@@ -30,6 +30,9 @@ def instances(tier):
                 else:
                     out.append(Instance("%s.n2.render" % cont, "h_render", {"cont": cont, "n": 2}, timeout=300))
                 out.append(Instance("%s.n%d.path" % (cont, n), "h_path", {"cont": cont, "n": n}, timeout=300))
+            if cont == "frame":
+                for op in ("remove_header", "remove_footer", "replace_header", "replace_footer", "replace_body"):
+                    out.append(Instance("frame.parts.%s" % op, "h_frame_parts", {"op": op}, timeout=300))
             if cont in ("pile", "columns", "gridflow"):
                 for op in ("insert", "delete", "clear", "assign"):
                     out.append(Instance("%s.n%d.contents.%s" % (cont, n, op), "h_contents", {"cont": cont, "n": n, "op": op}, timeout=300))
@@ -283,3 +286,34 @@ def h_contents(I, cont, n, op):
     I.check("selectable_iff_a_child_is", Iff(w.selectable(), Or(*[k.selectable() for k in kids]) if kids else False))
     if focus_before is not None and focus_before in kids and op in ("insert",):
         I.check("focus_keeps_its_widget_across_insert", w.focus is focus_before)
+
+
+def h_frame_parts(I, op):
+    """Replacing or removing header / footer / body keeps the focus on an existing part."""
+    import urwid
+    from symx import uw
+
+    uw.stub_cache(I)
+    w, leaves, size = _mk(I, "frame", 3)
+    _set_sym_focus(I, w)
+    new = _leaf(I, "new")
+    if op == "remove_header":
+        w.header = None
+    elif op == "remove_footer":
+        w.footer = None
+    elif op == "replace_header":
+        w.header = new
+    elif op == "replace_footer":
+        w.footer = new
+    else:
+        w.body = _leaf(I, "newbody", box=True)
+    part = w.focus_position
+    existing = {"header": w.header, "body": w.body, "footer": w.footer}
+    I.check("focus_part_exists", part in existing and existing[part] is not None)
+    I.check("focus_is_that_part", w.focus is existing.get(part))
+    for l in leaves + [new]:
+        del l.seen[:]
+    r = w.keypress(size, "x")
+    I.check("unhandled_key_returned", r == "x")
+    path = w.get_focus_path()
+    I.check("focus_path_names_existing_part", path[0] == part)
